@@ -197,7 +197,7 @@ def run(res):
         return
     ring_cov = ring["cov"]
     # broker level: T1 correspondence + order monitor; its coverage is merged with the ring's
-    brokercheck.run(res, "C03", "Props/C03.v", monitors.monitor_c03, quick_n=(70, 36), racy=True)
+    brokercheck.run(res, "C03", ["Props/C03.v", "Props/C03_history.v"], monitors.monitor_c03, quick_n=(70, 36), racy=True)
     res.cov["ring_api_level"] = {k: ring_cov.get(k) for k in ("evaluations", "distinct_nontrivial", "generator_distribution", "samples", "translator")}
     res.cov["evaluations"] += ring_cov.get("evaluations", 0)
     res.cov["distinct_nontrivial"] += ring_cov.get("distinct_nontrivial", 0)
